@@ -22,6 +22,10 @@
 import BumpProof.Coll.Spec
 import BumpProof.Lemmas.CollWF
 import BumpProof.Lemmas.CollRetain
+import BumpProof.Lemmas.CollDedup
+import BumpProof.Lemmas.CollBasic
+import BumpProof.Lemmas.CollGrow
+import BumpProof.Lemmas.CollPerm
 
 namespace C06
 open Coll
@@ -71,19 +75,167 @@ theorem drop_owner (bombs : List Id) (u : Bool) (v : Vec) (hv : v.WF) :
   have := hv.len_le_cap
   omega
 
-/-! ## `retain` (`BumpBox<[T]>::retain`, used by all vector types) -/
+/-- from a refinement equation to `DropsOnce` (in-place operations: the buffer is not reallocated) -/
+theorem dropsOnce_inplace {α : Type} {res : M (Out α)} {v : Vec} {r : SpecOut α} {rest : List Outcome} {ins : List Id}
+    (hv : v.WF) (hres : res = .ok ⟨v.after r, r.exit, rest⟩)
+    (hperm : (r.final ++ r.dropped ++ r.escaped).Perm (v.abs ++ ins)) (hlen : r.final.length ≤ v.cap)
+    (hins : (v.total ++ ins).Nodup) : DropsOnce res v ins := by
+  have := wf_after_of_eq hv (Grows.refl hv.slots_eq.1) hperm hlen hins
+  exact ⟨_, hres, this.1, this.2⟩
+
+/-- the same for operations that may reallocate first (`v'` = the vector after the reservation) -/
+theorem dropsOnce_grown {α : Type} {res : M (Out α)} {v v' : Vec} {r : SpecOut α} {rest : List Outcome} {ins : List Id}
+    (hv : v.WF) (hg : Grows v v' v.abs) (hres : res = .ok ⟨v'.after r, r.exit, rest⟩)
+    (hperm : (r.final ++ r.dropped ++ r.escaped).Perm (v.abs ++ ins)) (hlen : r.final.length ≤ v'.cap)
+    (hins : (v.total ++ ins).Nodup) : DropsOnce res v ins := by
+  have := wf_after_of_eq hv hg hperm hlen hins
+  exact ⟨_, hres, this.1, this.2⟩
+
+theorem grown_grows {env : Env} {v : Vec} {n : Nat} (hv : v.WF) :
+    Grows v (grown env v n) v.abs ∧ (room env v n = true → v.len + n ≤ (grown env v n).cap) := by
+  have ⟨hs, hl⟩ := hv.slots_eq
+  unfold grown room
+  cases hr : reserve env v n with
+  | none => exact ⟨Grows.refl hs, by simp⟩
+  | some v' => have ⟨g, hc⟩ := reserve_some hs hl hr; exact ⟨g, fun _ => hc⟩
+
+theorem grownOne_grows {env : Env} {v : Vec} (hv : v.WF) :
+    Grows v (grownOne env v) v.abs ∧ (roomOne env v = true → v.len + 1 ≤ (grownOne env v).cap) := by
+  have ⟨hs, hl⟩ := hv.slots_eq
+  unfold grownOne roomOne
+  cases hr : reserveOne env v with
+  | none => exact ⟨Grows.refl hs, by simp⟩
+  | some v' => have ⟨g, hc⟩ := reserveOne_some hs hl hr; exact ⟨g, fun _ => hc⟩
+
+/-! ## `retain`, `dedup_by` (`BumpBox<[T]>::retain`, `::dedup_by`; used by all vector types) -/
 
 theorem retain_drops_once (bombs : List Id) (v : Vec) (o : List Outcome) (hv : v.WF) :
     DropsOnce (retain bombs v o) v [] := by
   have ⟨hs, hl⟩ := hv.slots_eq
-  refine ⟨_, retain_eq bombs v v.abs o hs hl, ?_⟩
-  have hle : (retainSpec bombs v.abs o).final.length ≤ v.cap := by
-    have := retainTail_length_le bombs [] v.abs o
+  refine dropsOnce_inplace hv (retain_eq bombs v v.abs o hs hl) ?_ ?_ (by simpa using hv.2)
+  · simpa [retainSpec, sieve_escaped] using sieve_perm (· != 0) bombs v.abs [] o
+  · have := sieve_length_le (· != 0) bombs [] v.abs o
     have := hv.len_le_cap
     simp [retainSpec] at *; omega
-  have := after_WF v (retainSpec bombs v.abs o) [] hv
-    (by simpa [retainSpec, retainTail_escaped] using retainTail_perm bombs v.abs [] o) hle (by simpa using hv.2)
-  simpa using this
+
+theorem dedup_by_drops_once (bombs : List Id) (v : Vec) (o : List Outcome) (hv : v.WF) :
+    DropsOnce (dedupBy bombs v o) v [] := by
+  have ⟨hs, hl⟩ := hv.slots_eq
+  refine dropsOnce_inplace hv (dedupBy_eq bombs v v.abs o hs hl) ?_ ?_ (by simpa using hv.2)
+  · cases hx : v.abs with
+    | nil => simp [dedupSpec]
+    | cons x rest => simpa [dedupSpec, sieve_escaped] using sieve_perm (· == 0) bombs rest [x] o
+  · have := hv.len_le_cap
+    cases hx : v.abs with
+    | nil => simp [dedupSpec]
+    | cons x rest =>
+      have := sieve_length_le (· == 0) bombs [x] rest o
+      rw [hx] at hl
+      simp [dedupSpec] at *; omega
+
+/-! ## `truncate`, `clear`, `pop`, `remove`, `swap_remove` -/
+
+theorem truncate_drops_once (bombs : List Id) (v : Vec) (n : Nat) (hv : v.WF) :
+    DropsOnce (truncate bombs v n) v [] := by
+  have ⟨hs, hl⟩ := hv.slots_eq
+  refine dropsOnce_inplace hv (truncate_eq bombs v v.abs n hs hl) (by simpa using truncateSpec_perm bombs v.abs n) ?_
+    (by simpa using hv.2)
+  have := truncateSpec_len bombs v.abs n; have := hv.len_le_cap; omega
+
+theorem clear_drops_once (bombs : List Id) (v : Vec) (hv : v.WF) : DropsOnce (clear bombs v) v [] := by
+  have ⟨hs, hl⟩ := hv.slots_eq
+  exact dropsOnce_inplace hv (clear_eq bombs v v.abs hs hl) (by simpa using clearSpec_perm bombs v.abs)
+    (by simp [clearSpec]) (by simpa using hv.2)
+
+theorem pop_drops_once (v : Vec) (hv : v.WF) : DropsOnce (pop v) v [] := by
+  have ⟨hs, hl⟩ := hv.slots_eq
+  refine dropsOnce_inplace hv (pop_eq v v.abs hs hl) (by simpa using popSpec_perm v.abs) ?_ (by simpa using hv.2)
+  have := popSpec_len v.abs; have := hv.len_le_cap; omega
+
+theorem remove_drops_once (v : Vec) (i : Nat) (hv : v.WF) : DropsOnce (remove v i) v [] := by
+  have ⟨hs, hl⟩ := hv.slots_eq
+  refine dropsOnce_inplace hv (remove_eq v v.abs i hs hl) (by simpa using removeSpec_perm v.abs i) ?_ (by simpa using hv.2)
+  have := removeSpec_len v.abs i; have := hv.len_le_cap; omega
+
+theorem swap_remove_drops_once (v : Vec) (i : Nat) (hv : v.WF) : DropsOnce (swapRemove v i) v [] := by
+  have ⟨hs, hl⟩ := hv.slots_eq
+  refine dropsOnce_inplace hv (swapRemove_eq v v.abs i hs hl) (by simpa using swapRemoveSpec_perm v.abs i) ?_
+    (by simpa using hv.2)
+  have := swapRemoveSpec_len v.abs i; have := hv.len_le_cap; omega
+
+/-! ## `push`, `insert`, `extend_from_slice_clone`, `resize` (`FixedBumpVec`, `BumpVec`, `MutBumpVec`)
+
+  `id` / the ids produced by `Clone` are fresh (`hfresh`): they enter the accounting with the call.
+  A refused reservation (full `FixedBumpVec`) drops the argument exactly once and changes nothing else. -/
+
+theorem push_drops_once (env : Env) (v : Vec) (id : Id) (hv : v.WF) (hfresh : (v.total ++ [id]).Nodup) :
+    DropsOnce (push env v id) v [id] := by
+  have ⟨hs, hl⟩ := hv.slots_eq
+  have ⟨g, hc⟩ := grownOne_grows (env := env) hv
+  refine dropsOnce_grown hv g (push_eq env v v.abs id hs hl) (pushSpec_perm _ _ _) ?_ hfresh
+  have hlen := pushSpec_len (roomOne env v) v.abs id
+  have := hv.len_le_cap; have := g.cap
+  by_cases hr : roomOne env v = true
+  · have := hc hr; rw [hr] at hlen ⊢; simp at hlen; omega
+  · have hr' : roomOne env v = false := by simpa using hr
+    rw [hr'] at hlen ⊢; simp at hlen; omega
+
+theorem insert_drops_once (env : Env) (v : Vec) (i : Nat) (id : Id) (hv : v.WF) (hfresh : (v.total ++ [id]).Nodup) :
+    DropsOnce (insert env v i id) v [id] := by
+  have ⟨hs, hl⟩ := hv.slots_eq
+  have ⟨g, hc⟩ := grownOne_grows (env := env) hv
+  have hlen := insertSpec_len (roomOne env v) v.abs i id
+  have hcap := hv.len_le_cap
+  by_cases hi : i ≤ v.len
+  · have := insert_eq env v v.abs i id hs hl
+    simp only [hi, ↓reduceIte] at this
+    refine dropsOnce_grown hv g this (insertSpec_perm _ _ _ _) ?_ hfresh
+    have := g.cap
+    by_cases hr : roomOne env v = true
+    · have := hc hr; split at hlen <;> omega
+    · have hr' : roomOne env v = false := by simpa using hr
+      rw [hr'] at hlen ⊢; simp at hlen; omega
+  · have := insert_eq env v v.abs i id hs hl
+    simp only [hi, ↓reduceIte] at this
+    refine dropsOnce_inplace hv this (insertSpec_perm _ _ _ _) ?_ hfresh
+    have : ¬ (i ≤ v.abs.length ∧ roomOne env v = true) := by omega
+    simp [this] at hlen; omega
+
+theorem extend_from_slice_clone_drops_once (env : Env) (v : Vec) (n : Nat) (o : List Outcome) (hv : v.WF)
+    (hfresh : (v.total ++ clonedIds n o).Nodup) :
+    DropsOnce (extendFromSliceClone env v n o) v (if room env v n then clonedIds n o else []) := by
+  have ⟨hs, hl⟩ := hv.slots_eq
+  have ⟨g, hc⟩ := grown_grows (env := env) (n := n) hv
+  refine dropsOnce_grown hv g (extendFromSliceClone_eq env v v.abs n o hs hl) (extendCloneSpecR_perm _ _ _ _) ?_ ?_
+  · have hlen := extendCloneSpecR_len (room env v n) v.abs n o
+    have := hv.len_le_cap; have := g.cap
+    by_cases hr : room env v n = true
+    · have := hc hr; rw [hr] at hlen ⊢; simp at hlen; omega
+    · have hr' : room env v n = false := by simpa using hr
+      rw [hr'] at hlen ⊢; simp at hlen; omega
+  · split
+    · exact hfresh
+    · simpa using hv.2
+
+theorem resize_drops_once (env : Env) (v : Vec) (newLen : Nat) (value : Id) (o : List Outcome) (hv : v.WF)
+    (hfresh : (v.total ++ resizeIns (room env v (newLen - v.len)) v.abs newLen value o).Nodup) :
+    DropsOnce (resize env v newLen value o) v (resizeIns (room env v (newLen - v.len)) v.abs newLen value o) := by
+  have ⟨hs, hl⟩ := hv.slots_eq
+  have hcap := hv.len_le_cap
+  have hlen := resizeSpec_len (room env v (newLen - v.len)) env.bombs v.abs newLen value o
+  have heq := resize_eq env v v.abs newLen value o hs hl
+  by_cases h : newLen > v.len
+  · have ⟨g, hc⟩ := grown_grows (env := env) (n := newLen - v.len) hv
+    simp only [h, ↓reduceIte] at heq
+    refine dropsOnce_grown hv g heq (resizeSpec_perm _ _ _ _ _ _) ?_ hfresh
+    have := g.cap
+    by_cases hr : room env v (newLen - v.len) = true
+    · have := hc hr; rw [hr] at hlen ⊢; simp at hlen; omega
+    · have hr' : room env v (newLen - v.len) = false := by simpa using hr
+      rw [hr'] at hlen ⊢; simp at hlen; omega
+  · simp only [h, ↓reduceIte] at heq
+    refine dropsOnce_inplace hv heq (resizeSpec_perm _ _ _ _ _ _) ?_ hfresh
+    split at hlen <;> omega
 
 /-- non-vacuity: a well-formed vector `[1,2,3,4,5]` with one spare slot; the predicate keeps 1, removes 2,
     keeps 3 and panics on 4: the vector is `[1,3,4,5]`, `2` was dropped once -/
